@@ -48,7 +48,7 @@ let eval (fn : string) (args : string list) : string =
   | "EncodeRune", [r] -> hex_of_bytes (encode_rune (n_of_int (int_of_string r)))
   | "BytesHashMod64", [a] -> string_of_int (int_of_n (bytes_hash (bytes_of_hex a)) land 63)
   | "FilterProg", [p] -> run_filter_prog p
-  | _ -> Dispatch2.eval fn args
+  | _ -> (try Dispatch2.eval fn args with Dispatch2.Unknown_kind _ -> Dispatch3.eval fn args)
 
 let () =
   let file = Sys.argv.(1) in
